@@ -178,7 +178,9 @@ def const_filter_sweep(rng):
         for arg in C_FILTER_ARGS[f]:
             if f in ("filesizeformat", "int", "float", "round", "abs"):
                 pool = ["'3.7'", "1234567", "-2.5"]
-            elif f in ("urlize", "striptags", "wordwrap", "truncate", "indent", "center", "replace", "title", "capitalize", "trim", "wordcount",
+            elif f == "urlize":
+                pool = [C_STR[0], "'see https://x.example/a and www.y.example, or z@w.example'"]      # text WITH links
+            elif f in ("striptags", "wordwrap", "truncate", "indent", "center", "replace", "title", "capitalize", "trim", "wordcount",
                        "urlencode", "format", "escape", "forceescape", "e", "upper", "lower", "safe", "string"):
                 pool = C_STR
             elif f in ("xmlattr", "dictsort", "items", "tojson", "pprint"):
@@ -254,9 +256,11 @@ class TextGen:
                 ys = self.ids(r.randint(1, 4))
                 cnt = r.choice(xs)
                 body += "{% pluralize " + cnt + " %}" + " ".join("{{ " + y + " }}" for y in ys + [cnt])
-                decl = decl or (" " + cnt + "=" + r.choice(IDS))
+                # the count is a plain name, or an EXPRESSION (the extension then stores it in a helper variable)
+                cexpr = lambda: r.choice(IDS) + r.choice(["", "", "|length", ".n|length", "|default(1)", " + 1", "[0]"])      # noqa
+                decl = decl or (" " + cnt + "=" + cexpr())
                 if cnt + "=" not in decl:
-                    decl += ", " + cnt + "=" + r.choice(IDS)
+                    decl += ", " + cnt + "=" + cexpr()
             return "{% trans" + decl + " %}" + body + "{% endtrans %}"
         if k == 14:
             return "{% do " + r.choice(IDS) + ".append(" + r.choice(IDS) + ") %}" + ("{% debug %}" if r.random() < 0.3 else "")
